@@ -135,6 +135,27 @@ ScaleObs(c, o) ==
          \cup Fails(o.ul <= UnitTol52, "unit_length")
          \cup Fails(o.d9 <= ScaleTol9, "scale_law")
 
+\* ---- world: a session of calls run in ONE process, every call compared with the same call in a fresh process ----
+\* world  [steps, tol9, rottol9]   obs: one per step [k, err, fin, lx, dw, ds]
+\*        dw: largest on-sky distance (1e-9 degree, rounded up) of what a call of the step returned in the session
+\*        from what the SAME call (same arguments) returns in a fresh process; ds[c]: largest distance from the
+\*        step's input after undoing with candidate inverse c (<<>> when the step has no undo)
+WorldWellFormed(c) ==
+    /\ Len(c.steps) >= 1 /\ c.tol9 = WorldTol9 /\ c.rottol9 = RotTol9
+    /\ \A k \in DOMAIN c.steps : LET st == c.steps[k] IN
+          /\ st.c.fn \in {"rotate", "conv", "randcap"} /\ st.undo \in BOOLEAN /\ st.scr \in BOOLEAN
+          /\ st.undo => st.c.fn = "rotate"
+          /\ st.c.fn = "rotate" => Len(st.c.p) = 3
+          /\ st.c.fn = "randcap" => Len(st.c.p) = 2
+          /\ st.c.fn = "conv" => (Len(st.c.p) = 2 /\ st.c.p[1] \in Selectors /\ st.c.p[2] \in {0, 1} /\ (st.c.p[2] = 1 => IsEuler(st.c.p[1])))
+WorldObs(c, o) ==
+    IF o.k \notin DOMAIN c.steps THEN {"malformed_case"}
+    ELSE IF o.err # "none" THEN {"no_error"}
+    ELSE IF ~o.fin THEN {"finite"}
+    ELSE Fails(o.lx <= 0, "lat_range")
+         \cup Fails(o.dw <= WorldTol9, "world_independent")
+         \cup Fails(c.steps[o.k].undo => (Len(o.ds) = Len(InvCands) /\ \E j \in DOMAIN o.ds : o.ds[j] <= RotTol9), "rotate_inverse")
+
 \* ---- dispatch ---------------------------------------------------------------------------------------
 WellFormed(c) ==
     CASE c.kind = "eqn" -> EqnWellFormed(c)
@@ -145,6 +166,7 @@ WellFormed(c) ==
       [] c.kind \in {"shift", "shiftr"} -> ShiftWellFormed(c)
       [] c.kind = "xyz" -> XyzWellFormed(c)
       [] c.kind = "scale" -> ScaleWellFormed(c)
+      [] c.kind = "world" -> WorldWellFormed(c)
       [] OTHER -> FALSE
 FailingObs(c, o) ==
     CASE c.kind = "eqn" -> EqnObs(c, o)
@@ -155,6 +177,7 @@ FailingObs(c, o) ==
       [] c.kind \in {"shift", "shiftr"} -> ShiftObs(c, o)
       [] c.kind = "xyz" -> XyzObs(c, o)
       [] c.kind = "scale" -> ScaleObs(c, o)
+      [] c.kind = "world" -> WorldObs(c, o)
 
 FailingRec(r) ==
     IF ~WellFormed(r.c) THEN {<<"malformed_case", 0>>}
